@@ -47,12 +47,12 @@ Terminal == {"ack", "nack", "reject", "requeue"}
 (* ---- worker-only events --------------------------------------------------------------- *)
 WCfg == /\ Is("wcfg") /\ Step
         /\ wc' = [wc EXCEPT !.tl = Ev.tl, !.ml = Ev.ml, !.donedl = Ev.donedl]
-        /\ UNCHANGED <<vars, calls, chk, devs, taint, rdl, rdls, dead, unsure, enqAt, ovt, mvAt, hot, retdl, ph, dv, out, nact, cw, running, started, rs, ex>>
+        /\ UNCHANGED <<vars, calls, chk, devs, taint, rdl, rdls, dead, unsure, enqAt, ovt, mvAt, hot, retdl, arrAt, ph, dv, out, nact, cw, running, started, rs, ex>>
 
 WXs == /\ Is("xs") /\ Step
        /\ ph[Ev.i] = "got"
        /\ ph' = [ph EXCEPT ![Ev.i] = "run"]
-       /\ UNCHANGED <<vars, calls, chk, devs, taint, rdl, rdls, dead, unsure, enqAt, ovt, mvAt, hot, retdl, dv, out, nact, cw, running, started, wc, rs, ex>>
+       /\ UNCHANGED <<vars, calls, chk, devs, taint, rdl, rdls, dead, unsure, enqAt, ovt, mvAt, hot, retdl, arrAt, dv, out, nact, cw, running, started, wc, rs, ex>>
 
 WXe == /\ Is("xe") /\ Step
        /\ ph[Ev.i] = "run"
@@ -69,7 +69,7 @@ WXe == /\ Is("xe") /\ Step
        /\ ex' = [ex EXCEPT ![Ev.i].okc = IF Ev.out = "ok" /\ ~dv[Ev.i].rec THEN @ + 1 ELSE @]
        \* (a second successful execution is legitimate only after the message was returned by a shutdown
        \*  reject -- that redelivery discipline is the broker contract's; here: never two bodies at once, see WBs)
-       /\ UNCHANGED <<vars, calls, chk, devs, taint, rdl, rdls, dead, unsure, enqAt, ovt, mvAt, hot, retdl, dv, nact, cw, running, started, wc>>
+       /\ UNCHANGED <<vars, calls, chk, devs, taint, rdl, rdls, dead, unsure, enqAt, ovt, mvAt, hot, retdl, arrAt, dv, nact, cw, running, started, wc>>
 
 (* C13: a result-bucket write for message i.  Only when results are enabled for i; it must carry  *)
 (* the outcome of the execution that just finished (Ev.match, compared field by field by the      *)
@@ -78,7 +78,7 @@ WStore == /\ Is("store") /\ Step
           /\ Has("result") => (dv[Ev.i].res /\ ph[Ev.i] \in {"run", "ended", "done"})
           /\ rs' = [rs EXCEPT ![Ev.i] = [n |-> @.n + 1, good |-> IF Ev.failed THEN @.good ELSE Ev.match,
                                          owed |-> IF Ev.failed THEN @.owed ELSE FALSE]]
-          /\ UNCHANGED <<vars, calls, chk, devs, taint, rdl, rdls, dead, unsure, enqAt, ovt, mvAt, hot, retdl, ph, dv, out, nact, cw, running, started, wc, ex>>
+          /\ UNCHANGED <<vars, calls, chk, devs, taint, rdl, rdls, dead, unsure, enqAt, ovt, mvAt, hot, retdl, arrAt, ph, dv, out, nact, cw, running, started, wc, ex>>
 
 WBs == /\ Is("bs") /\ Step
        /\ running' = running + 1 /\ started' = started + 1
@@ -87,27 +87,27 @@ WBs == /\ Is("bs") /\ Step
        /\ Has("route") => Ev.okfn                                 \* C11
        /\ Has("once") => ex[Ev.i].inb = 0                          \* C14: never two bodies of one message at once
        /\ ex' = [ex EXCEPT ![Ev.i].inb = @ + 1]
-       /\ UNCHANGED <<vars, calls, chk, devs, taint, rdl, rdls, dead, unsure, enqAt, ovt, mvAt, hot, retdl, ph, dv, out, nact, cw, wc, rs>>
+       /\ UNCHANGED <<vars, calls, chk, devs, taint, rdl, rdls, dead, unsure, enqAt, ovt, mvAt, hot, retdl, arrAt, ph, dv, out, nact, cw, wc, rs>>
 
 WBe == /\ Is("be") /\ Step
        /\ running' = running - 1
        /\ ex' = [ex EXCEPT ![Ev.i].inb = @ - 1]
-       /\ UNCHANGED <<vars, calls, chk, devs, taint, rdl, rdls, dead, unsure, enqAt, ovt, mvAt, hot, retdl, ph, dv, out, nact, cw, started, wc, rs>>
+       /\ UNCHANGED <<vars, calls, chk, devs, taint, rdl, rdls, dead, unsure, enqAt, ovt, mvAt, hot, retdl, arrAt, ph, dv, out, nact, cw, started, wc, rs>>
 
 WStop == /\ Is("stop") /\ Step
          /\ wc' = [wc EXCEPT !.stop = TRUE, !.stopdl = Ev.dl, !.gdl = Ev.gdl]
-         /\ UNCHANGED <<vars, calls, chk, devs, taint, rdl, rdls, dead, unsure, enqAt, ovt, mvAt, hot, retdl, ph, dv, out, nact, cw, running, started, rs, ex>>
+         /\ UNCHANGED <<vars, calls, chk, devs, taint, rdl, rdls, dead, unsure, enqAt, ovt, mvAt, hot, retdl, arrAt, ph, dv, out, nact, cw, running, started, rs, ex>>
 
 WForced == /\ Is("forced") /\ Step
            \* running executions are cancelled only after a stop (request or messages limit), and not before the graceful period is over
            /\ (Has("stop") \/ Has("mlimit")) => (wc.stop /\ now >= wc.gdl)
            /\ wc' = [wc EXCEPT !.forced = TRUE]
-           /\ UNCHANGED <<vars, calls, chk, devs, taint, rdl, rdls, dead, unsure, enqAt, ovt, mvAt, hot, retdl, ph, dv, out, nact, cw, running, started, rs, ex>>
+           /\ UNCHANGED <<vars, calls, chk, devs, taint, rdl, rdls, dead, unsure, enqAt, ovt, mvAt, hot, retdl, arrAt, ph, dv, out, nact, cw, running, started, rs, ex>>
 
 WRend == /\ Is("rend") /\ Step
          /\ (Has("stop") /\ wc.stop) => now <= wc.stopdl          \* C03: returns within grace + slack
          /\ wc' = [wc EXCEPT !.ret = TRUE]
-         /\ UNCHANGED <<vars, calls, chk, devs, taint, rdl, rdls, dead, unsure, enqAt, ovt, mvAt, hot, retdl, ph, dv, out, nact, cw, running, started, rs, ex>>
+         /\ UNCHANGED <<vars, calls, chk, devs, taint, rdl, rdls, dead, unsure, enqAt, ovt, mvAt, hot, retdl, arrAt, ph, dv, out, nact, cw, running, started, rs, ex>>
 
 (* the loop is idle after run() returned *)
 (* known finding (Redis): a message that the worker's consumer had marked in-flight but never handed to the runner  *)
@@ -135,14 +135,14 @@ WQuiet == /\ Is("quiet") /\ Step
                   /\ rs[i].good                                               \* what is stored is the latest outcome
                   /\ ((~dv[i].res) => (rs[i].n = 0))                          \* disabled: nothing written
                   /\ ((rs[i].owed /\ ~Ev.storefault /\ ~wc.forced) => FALSE)  \* enabled: written
-          /\ UNCHANGED <<vars, calls, chk, devs, taint, rdl, rdls, dead, unsure, enqAt, ovt, mvAt, hot, retdl, wvars>>
+          /\ UNCHANGED <<vars, calls, chk, devs, taint, rdl, rdls, dead, unsure, enqAt, ovt, mvAt, hot, retdl, arrAt, wvars>>
 
 (* every job of the scenario must have run by the scenario's deadline (bounded liveness, C09/C10) *)
 WLate == /\ Is("late") /\ Step
          /\ Has("progress") => FALSE
          \* Worker.run() raising is never part of any of the worker properties' good behaviours
          /\ Ev.raised => ~(\E c \in {"dispo", "retry", "recur", "limit", "mlimit", "route", "stop", "result", "once", "ttlclock"} : Has(c))
-         /\ UNCHANGED <<vars, calls, chk, devs, taint, rdl, rdls, dead, unsure, enqAt, ovt, mvAt, hot, retdl, wvars>>
+         /\ UNCHANGED <<vars, calls, chk, devs, taint, rdl, rdls, dead, unsure, enqAt, ovt, mvAt, hot, retdl, arrAt, wvars>>
 
 (* ---- shadow of the broker-level events -------------------------------------------------- *)
 ByWorker(c) == c # 0 /\ cw[c] # 0
